@@ -670,6 +670,23 @@ def zipPairs : List Val → List Val → List Val
   | k :: ks, v :: vs => .list [k, v] :: zipPairs ks vs
   | _, _ => []
 
+/-- scan for the position a symbolic index denotes: `step` is `+1` from `0` over the list (non-negative
+indices) or `-1` from `-1` over the reversed list (Python counts negative indices from the end) -/
+def symIdxScan (t : ITerm) (step : Int) : Int → List Val → M (Option Val)
+  | _, [] => M.pure Option.none
+  | k, v :: vs => do
+    if (← M.branch (BTerm.mkIeq t (.lit k))) then M.pure (some v) else symIdxScan t step (k + step) vs
+
+/-- `l[t]` for a symbolic int `t`: one branch per position `0 … n−1`, then per negative index `−1 … −n`,
+else `IndexError` -/
+def symIndex (l : List Val) (t : ITerm) : M Val := do
+  match (← symIdxScan t 1 0 l) with
+  | some v => M.pure v
+  | Option.none =>
+    match (← symIdxScan t (-1) (-1) l.reverse) with
+    | some v => M.pure v
+    | Option.none => M.fail (.raise "IndexError")
+
 def listIndex (l : List Val) (i : Int) : M Val :=
   let j : Int := if i < 0 then i + l.length else i
   if j < 0 then M.fail (.raise "IndexError") else
@@ -920,7 +937,8 @@ def eval (env : Env) : Nat → Expr → Vars → St → M (Val × St)
       | .list l =>
         (match j with
          | .int (.lit k) => do M.pure ((← listIndex l k), st)
-         | _ => M.fail (.unsupported "symbolic index"))
+         | .int t => do M.pure ((← symIndex l t), st)
+         | _ => M.fail (.unsupported "index that is not an int"))
       | .dict ks vs => do
         match (← dictGet j ks vs) with
         | some v => M.pure (v, st)
